@@ -1,19 +1,34 @@
 #!/bin/sh
-# harness/seedconfirm.sh <seed dir with patch.diff + demo.py|test_demo.py> [pytest files...]
-# confirms in a scratch worktree: demo passes on the clean tree, fails with the patch; given test files pass with the patch
+# harness/seedconfirm.sh <seed dir with patch.diff [patch_head.diff] + demo.py|test_demo.py> [full|pytest files...]
+# confirms in a scratch worktree: demo passes on the clean tree, fails with the patch; the given test files
+# (or, with "full", the pinned suite's stable tests) pass with the patch
 D="$1"; shift
 WT=/tmp/mut/cf.$$
 mkdir -p /tmp/mut
 git -C /repo worktree add -q --detach "$WT" HEAD || exit 2
 DEMO="$D/demo.py"; [ -f "$DEMO" ] || DEMO="$D/test_demo.py"
+P="$D/patch_head.diff"; [ -f "$P" ] || P="$D/patch.diff"
 run_demo() { ( cd "$WT" && PYTHONPATH="$WT" timeout 300 /venv/bin/python "$DEMO" > "$1" 2>&1; echo $? ); }
 case "$DEMO" in *test_demo.py) run_demo() { ( cd "$WT" && PYTHONPATH="$WT" timeout 300 /venv/bin/python -m pytest -q -x -p no:cacheprovider "$DEMO" > "$1" 2>&1; echo $? ); } ;; esac
 rc0=$(run_demo /tmp/mut/cf.$$.clean)
-git -C "$WT" apply "$D/patch.diff" || { echo "PATCH-DOES-NOT-APPLY"; git -C /repo worktree remove --force "$WT"; exit 2; }
+git -C "$WT" apply "$P" 2>/dev/null || git -C "$WT" apply -3 "$P" 2>/dev/null || ( cd "$WT" && patch -p1 -F3 -s < "$P" ) || { echo "PATCH-DOES-NOT-APPLY"; git -C /repo worktree remove --force "$WT"; exit 2; }
 rc1=$(run_demo /tmp/mut/cf.$$.patched)
-echo "demo: clean rc=$rc0 patched rc=$rc1"
+echo "demo: clean rc=$rc0 patched rc=$rc1 ($(tail -1 /tmp/mut/cf.$$.patched | cut -c1-160))"
+if [ "$1" = "full" ]; then
+  ( cd "$WT" && PYTHONPATH="$WT" timeout 3000 /venv/bin/python -m pytest -q -p no:cacheprovider --timeout=900 --continue-on-collection-errors --junitxml=/tmp/mut/cf.$$.xml > /tmp/mut/cf.$$.log 2>&1 )
+  /venv/bin/python - /tmp/mut/cf.$$.xml <<'PY'
+import json, sys, xml.etree.ElementTree as ET
+sp = set(json.load(open('/root/.vp/BASELINE.json'))['stable_pass'])
+res = {}
+for tc in ET.parse(sys.argv[1]).iter('testcase'):
+    res[f"{tc.get('classname')}::{tc.get('name')}"] = not any(c.tag in ('failure', 'error', 'skipped') for c in tc)
+miss = sorted(n for n in sp if not res.get(n))
+print(f"suite: stable={len(sp)} not-passing={len(miss)} {miss[:6]}")
+PY
+else
 for T in "$@"; do
   ( cd "$WT" && PYTHONPATH="$WT" timeout 1500 /venv/bin/python -m pytest -q -p no:cacheprovider --timeout=600 "$T" --deselect tests/test_reusable_executor.py::TestTerminateExecutor::test_sigkill_shutdown_leaks_workers --deselect tests/test_loky_module.py::test_cpu_count_cgroup_limit 2>&1 | grep -E "passed|failed|error" | tail -1 | sed "s|^|tests $T: |" )
 done
+fi
 git -C /repo worktree remove --force "$WT"
 rm -f /tmp/mut/cf.$$.*
